@@ -48,9 +48,35 @@ def seqs(tokens, maxlen):
 _ONLY = []
 
 
+ODD_SPACES = ['\xa0', '\x0b', '\x0c', '\x1f', '\x85', '\u2003', '\u3000']   # white space for Python, not for XSD/XML
+_STR_CACHE = {}
+
+
 def strings_for(T, tier):
+    """the per-type literals, plus two valid literals of the type with a character that is white space for Python but not
+    for XML put before, after and inside them (the whitespace normalisation of XSD knows only #x20 #x9 #xA #xD)"""
     if _ONLY:
         return list(_ONLY)
+    k = (T, tier)
+    if k not in _STR_CACHE:
+        base = _strings_for(T, tier)
+        try:
+            reps = [s for s in base if s and s == s.strip() and A.parse(T, s, '1.1') is not None and A.parse(T, s, '1.0') is not None][:2]
+        except KeyError:   # a type the lexical model does not cover
+            reps = []
+        have = set(base)
+        extra = []
+        for r in reps:
+            for ch in ODD_SPACES:
+                for w in (ch + r, r + ch, ' ' + ch + r, r[:1] + ch + r[1:]):
+                    if w not in have:
+                        have.add(w)
+                        extra.append(w)
+        _STR_CACHE[k] = base + extra
+    return _STR_CACHE[k]
+
+
+def _strings_for(T, tier):
     deep = tier != 'quick'
     if T in NUMERIC:
         base = seqs(NUM_TOK, 4)
